@@ -47,7 +47,7 @@ theorem WGraph.row_bonds {g : Mol} (hg : WGraph g) {i : Nat} (hi : i < g.atoms.l
       (b.ring = false → b.src < b.dst) :=
   hg.bonds i _ (hg.row_get hi)
 
-theorem atomToSmiles_ok {a : Atom} (h : a.isAromatic = false) :
+theorem atomToSmiles_okW {a : Atom} (h : a.isAromatic = false) :
     atomToSmiles a = .ok (atomText a) := by
   unfold atomText
   cases h' : atomToSmiles a with
@@ -77,7 +77,7 @@ theorem WGraph.getAtom {g : Mol} (hg : WGraph g) {i : Nat} (hi : i < g.atoms.len
   · unfold getIdx; rw [List.getElem?_eq_getElem hi]
   · unfold Mol.atomTextAt
     rw [List.getElem?_eq_getElem hi]
-    exact atomToSmiles_ok (hg.nonarom _ (List.getElem_mem hi))
+    exact atomToSmiles_okW (hg.nonarom _ (List.getElem_mem hi))
 
 /-! ### abstraction of the writer state: emitted strings and ring log -/
 
